@@ -384,7 +384,8 @@ def run_one(pid, cfg, tier, seed, base, repo, mir, binary, listed, t_setup):
     for role, (h, inp) in sorted(kf_seen.items()):
         if role in listed and listed[role]['property'] == pid:
             out_lines.append(f'KNOWN-FINDING: property={pid} {role}: {listed[role]["what"]} (witness {h} {inp})')
-    os.makedirs(os.path.join(VERIF, 'replays'), exist_ok=True)
+    rdir = os.environ.get('VERIF_REPLAY_DIR', os.path.join(VERIF, 'replays'))
+    os.makedirs(rdir, exist_ok=True)
     viol_files = []
     seen = set()
     for h, chk, inputs, how in confirmed:
@@ -394,7 +395,7 @@ def run_one(pid, cfg, tier, seed, base, repo, mir, binary, listed, t_setup):
         seen.add(key)
         body = {'property': pid, 'harness': h, 'check': chk, 'inputs': inputs, 'native': how}
         hh = hashlib.sha1(json.dumps(body, sort_keys=True).encode()).hexdigest()[:10]
-        path = os.path.join(VERIF, 'replays', f'{pid}-{h.replace("::", "-")}-{hh}.json')
+        path = os.path.join(rdir, f'{pid}-{h.replace("::", "-")}-{hh}.json')
         json.dump(body, open(path, 'w'), indent=1)
         viol_files.append(path)
         out_lines.append(f'VIOLATION property={pid} replay={path}')
@@ -452,8 +453,9 @@ def run_one(pid, cfg, tier, seed, base, repo, mir, binary, listed, t_setup):
         'wall_s': round(wall, 1),
         'violations': len(viol_files),
     }
-    os.makedirs(os.path.join(VERIF, 'evidence'), exist_ok=True)
-    json.dump(ev, open(os.path.join(VERIF, 'evidence', pid + '.json'), 'w'), indent=1, default=str)
+    evdir = os.environ.get('VERIF_EVIDENCE_DIR', os.path.join(VERIF, 'evidence'))
+    os.makedirs(evdir, exist_ok=True)
+    json.dump(ev, open(os.path.join(evdir, pid + '.json'), 'w'), indent=1, default=str)
     for l in out_lines:
         print(l, flush=True)
     log(f'[{pid}] tier={tier} paths={states} checks={sum(hr.checks for hr in res.values())} '
